@@ -168,28 +168,6 @@ def check_identity_term(idx: Index, rep: Report):
     top = [s for s in loops[0].body if isinstance(s, ast.If) and norm(s.test) == "pauli_word"]
     if not top or not top[0].orelse:
         raise AnalysisError("identity-term branch not found")
-    br = top[0].orelse
-    c = sp.Symbol("c", real=True)
-    env = {"np.real(coef)": c, "coef": c}
-
-    def unk(n):
-        if isinstance(n, ast.Call) and norm(n.func) == "np.real":
-            return c
-        if isinstance(n, ast.Call) and norm(n.func) == "np.exp":
-            return sp.exp(symx.to_sympy(n.args[0], env, on_unknown=unk))
-        return None
-    outer = br[0] if isinstance(br[0], ast.If) else None
-    if outer is None or norm(outer.test) != "control is None":
-        raise AnalysisError("identity-term branch: `if control is None` not found")
-    ph = [s for s in outer.body if isinstance(s, ast.AugAssign) and norm(s.target) == "phase" and isinstance(s.op, ast.Mult)]
-    ok = False
-    if ph:
-        try:
-            ok = symx.equal(symx.to_sympy(ph[0].value, env, on_unknown=unk), sp.exp(-sp.I * c))
-        except symx.Untranslatable:
-            ok = False
-    rep.decide(ok, rule, f, ph[0] if ph else outer, text="no control: phase *= exp(-i c)", what="an identity term contributes the global phase exp(-i c)",
-               reason=f"phase update {norm(ph[0]) if ph else '?'}")
     check_operator_circuit(idx, rep)
     # a non-identity term is skipped only when its coefficient is (numerically) zero: multiples of pi are NOT skippable, exp(-i k pi P) = (-1)^k
     guards = [n for n in ast.walk(top[0]) if isinstance(n, ast.If) and any("exp_pauliword_to_gates" in norm(x) for x in n.body) and "coef" in norm(n.test)]
